@@ -19,8 +19,8 @@ UQ_LIBS = ['GRWAqueous2018', 'GRWSurface2018', 'GuSolventGA2017Vac']   # the lib
 BOUNDS = {
     'quick': 'synthetic basis of 3 descriptors: concrete rational symmetric M with symbolic real counts and RMSE; symbolic '
              'symmetric M with <= 2 non-zero counts; scaling factor, mapping order and an out-of-basis descriptor symbolic; '
-             'shipped uncertainty libraries: concrete M, counts symbolic on a seeded subset of 6 basis descriptors',
-    'thorough': 'shipped libraries: counts symbolic on 12 basis descriptors, 3 subsets each',
+             'shipped uncertainty libraries: concrete M, the WHOLE count vector over the basis symbolic at once (66-75 reals) and a seeded subset of 12',
+    'thorough': 'the same for all three properties and 3 seeded subsets per library',
 }
 STUBS = ['NpShim/Arr for numpy in group_data (zeros, item assignment, transpose, dot, square, sqrt)',
          'SQRT is a bare uninterpreted function: the radicand handed to sqrt is compared with RMSE^2 x.M.x and the value returned must be that sqrt term (sign and value of the root are numpy.sqrt\'s contract)',
@@ -272,8 +272,13 @@ def obligations(tier, seed):
         n = _basis_size(lib)
         if not n:
             continue
+        # the WHOLE count vector over the uncertainty basis symbolic at once (66-75 reals): the radicand is a quadratic form
+        # with the stored matrix as coefficients; z3 normalises both sides to the same polynomial
+        for g in (('get_HoRT',) if q else ('get_CpoR', 'get_HoRT', 'get_SoR')):
+            obs.append(dict(name='shipped_%s_all_%s' % (lib, g), func='h_shipped',
+                            param=dict(lib=lib, idx=list(range(n)), getter=g), timeout=to))
         for rep in range(1 if q else 3):
-            idx = sorted(rnd.sample(range(n), min(n, 6 if q else 12)))
+            idx = sorted(rnd.sample(range(n), min(n, 12)))
             obs.append(dict(name='shipped_%s_%d' % (lib, rep), func='h_shipped',
                             param=dict(lib=lib, idx=idx, getter=rnd.choice(['get_CpoR', 'get_HoRT', 'get_SoR'])), timeout=to))
     return obs
